@@ -2,6 +2,7 @@ package main
 
 import (
 	"fmt"
+	"sort"
 	"go/constant"
 	"go/token"
 	"go/types"
@@ -774,12 +775,16 @@ func (ft *funcTrans) sendReqs(v Term, pos token.Pos) {
 	if ft.c == nil {
 		return
 	}
+	site := ft.sendSiteOrdinal(pos)
 	for k, sr := range ft.c.SendReqs {
+		if ft.c.SendSite[k] != 0 && ft.c.SendSite[k] != site {
+			continue
+		}
 		ec := ft.localCtx(ft.curSt)
 		ec.env["sent"] = v
 		t := ec.evalBool(sr.E)
 		ft.nAsserts++
-		o := ft.obligation("sendreq", fmt.Sprintf("send%d.sendreq%d", ft.nAsserts, k+1), sr.Src, t.S)
+		o := ft.obligation("sendreq", fmt.Sprintf("send%d.sendreq%d", site, k+1), sr.Src, t.S)
 		o.Where = posStr(ft.p.SSA.Fset, pos)
 	}
 }
@@ -797,4 +802,32 @@ func (ft *funcTrans) asyncPoint() {
 		w.heapSorts[h] = srt
 		ft.newHeapVersion(ft.curSt, h)
 	}
+}
+
+// sendSiteOrdinal: 1-based ordinal of the send site at pos among all send
+// sites (send statements and send cases of selects) of the function, by source position.
+func (ft *funcTrans) sendSiteOrdinal(pos token.Pos) int {
+	if ft.sendSites == nil {
+		for _, b := range ft.fn.Blocks {
+			for _, in := range b.Instrs {
+				switch x := in.(type) {
+				case *ssa.Send:
+					ft.sendSites = append(ft.sendSites, x.Pos())
+				case *ssa.Select:
+					for _, stt := range x.States {
+						if stt.Dir == types.SendOnly {
+							ft.sendSites = append(ft.sendSites, stt.Pos)
+						}
+					}
+				}
+			}
+		}
+		sort.Slice(ft.sendSites, func(i, j int) bool { return ft.sendSites[i] < ft.sendSites[j] })
+	}
+	for i, p := range ft.sendSites {
+		if p == pos {
+			return i + 1
+		}
+	}
+	return 0
 }
